@@ -120,8 +120,10 @@ class C02:
                 "ctrl_c": rng.random() if rng.random() < 0.5 else None}
 
     # ------------------------------------------------------------------
-    def offsets(self, F, cfg, is_gz):
-        if cfg["exhaustive"] and len(F) <= 8000:       # (longer logs would take minutes each: boundary set instead)
+    def offsets(self, F, cfg, is_gz, n_rows=0):
+        # (longer logs would take minutes each, and so would short logs of long evaluations - every resume evaluates what is left, and a run
+        #  of 8000 resumes over 700 interactions did not finish within the batch's grace period: boundary set instead)
+        if cfg["exhaustive"] and len(F) <= 8000 and len(F) * max(1, n_rows) <= 600_000:
             return list(range(len(F) + 1)), True
         import random
         r = random.Random(cfg["offset_seed"])
@@ -200,7 +202,11 @@ class C02:
             t_full = X.tables(res_full)
             F = open(full, "rb").read()
             full_log_text = "\n".join(map(str, log_full.items))
-            offs, exhaustive = self.offsets(F, cfg, is_gz)
+            try:
+                n_rows = len(t_full["interactions"])
+            except Exception:
+                n_rows = 0
+            offs, exhaustive = self.offsets(F, cfg, is_gz, n_rows)
             exp0, _ = X.build_experiment(spec)
             ids = triple_ids(exp0)
             n_I = sum(1 for r in file_records(full) if r and r[0] == "I")
